@@ -32,3 +32,25 @@ while i < len(lines) and lines[i].startswith("| `"):
 s = s[:a] + head + "\n".join(rows) + ("\n" if rows else "") + "\n".join(lines[i:])
 open(p, "w").write(s)
 print(len(rows), "rows")
+
+# ---- section 11: fix commits and open findings
+import subprocess
+log = subprocess.run(["git", "-C", "/repo", "log", "--format=%h %s"], stdout=subprocess.PIPE, text=True).stdout.splitlines()
+fixes = [l for l in log if l.split(" ", 1)[1].startswith("fix:")][::-1]
+kf = json.load(open(os.path.join(V, "known_findings.json")))["findings"]
+byc = {}
+for f in kf:
+    if f.get("status") == "fixed":
+        byc.setdefault(f.get("commit", "")[:7], []).append(f["id"])
+lines = ["Repaired: %d `fix:` commits in /repo (each with the 43 baseline tests and the 44 feature-gated unit tests of `ohkami` passing), in order:" % len(fixes), ""]
+for l in fixes:
+    h, msg = l.split(" ", 1)
+    lines.append("* `%s` %s%s" % (h, msg[5:].replace("|", "\\|"), (" — " + ", ".join(byc[h])) if h in byc else ""))
+s = open(os.path.join(V, "DESIGN.md")).read()
+a = s.index("<!-- FIXLIST-BEGIN -->") + len("<!-- FIXLIST-BEGIN -->"); b = s.index("<!-- FIXLIST-END -->")
+s = s[:a] + "\n" + "\n".join(lines) + "\n" + s[b:]
+op = ["* `%s` (%s): %s" % (f["id"], f["property"], f["what"][:260]) for f in kf if f.get("status") == "open"]
+a = s.index("<!-- OPENLIST-BEGIN -->") + len("<!-- OPENLIST-BEGIN -->"); b = s.index("<!-- OPENLIST-END -->")
+s = s[:a] + "\n" + "\n".join(op) + "\n" + s[b:]
+open(os.path.join(V, "DESIGN.md"), "w").write(s)
+print(len(fixes), "fix commits,", len(op), "open findings")
